@@ -167,15 +167,20 @@ def run(ctx: core.Ctx):
         nz = rng.randint(1, 3)
         idt, nd = rng.choice([("int32", 2147483647), ("int32", -2147483647), ("int32", 99999999), ("int64", 2 ** 40 + 1), ("float64", -9999.9), ("float64", 1e20 + 1e5)])
         vals = np.array([[[nd if rng.random() < .25 else rng.randint(0, 5000) for _ in range(c)] for _ in range(r)] for _ in range(t)], dtype=idt)
-        zones = np.array([[rng.randrange(nz) if rng.random() > .1 else 255 for _ in range(c)] for _ in range(r)], dtype="uint8")
+        # the zone raster's own nodata is a value of ITS dtype (admin rasters: uint16 with 65535, int32 with the maximum, ...)
+        zdt, znd = [("uint8", 255), ("uint16", 65535), ("int32", 2147483647), ("int64", -1), ("uint32", 4294967295)][k % 5]
+        zones0 = np.array([[rng.randrange(nz) if rng.random() > .25 else -7 for _ in range(c)] for _ in range(r)], dtype="int64")
+        zones0[0, 0] = -7
+        zraster = np.where(zones0 == -7, znd, zones0).astype(zdt)
+        zones = np.where(zones0 == -7, 255, zones0).astype("uint8")          # the same partition, for the reference below
         tt = np.arange(t).astype("datetime64[D]")
         xd = xr.DataArray(vals, dims=("time", "y", "x"), coords={"time": tt}, attrs={"nodata": nd})
-        zd = xr.DataArray(zones, dims=("y", "x"), attrs={"nodata": 255})
+        zd = xr.DataArray(zraster, dims=("y", "x"), attrs={"nodata": znd})
         xdd = xr.DataArray(da_.from_array(vals, chunks=(1, r, c)), dims=("time", "y", "x"), coords={"time": tt}, attrs={"nodata": nd})
         for odt in ("float32", "float64"):
             for backend, src in (("numpy", xd), ("dask", xdd)):
                 res = np.asarray(src.hdc.zonal.mean(zd, list(range(nz)), dtype=odt).compute())
-                ctx.case(("acc-sentinel", vals.tobytes(), idt, nd, odt, backend), sample=dict(accessor="zonal.mean", input_dtype=idt, nodata=nd, out=odt, backend=backend))
+                ctx.case(("acc-sentinel", vals.tobytes(), idt, nd, odt, backend), sample=dict(accessor="zonal.mean", input_dtype=idt, nodata=nd, zone_dtype=zdt, zone_nodata=znd, out=odt, backend=backend))
                 ctx.count("accessor, wide sentinels")
                 for kz in range(nz):
                     for ti in range(t):
@@ -184,9 +189,9 @@ def run(ctx: core.Ctx):
                         got = res[ti, kz]
                         ok = (v.size == 0 and np.isnan(got[0]) and got[1] == 0) or (v.size > 0 and got[1] == v.size and abs(got[0] - v.astype(np.float64).mean()) <= 1e-6 * max(1.0, abs(v.astype(np.float64).mean())))
                         if not ok:
-                            ctx.fail("zonal.mean", dict(data=vals[ti].tolist(), zones=zones.tolist(), nodata=nd, input_dtype=idt, dtype=odt, backend=backend, zone=kz, step=ti),
+                            ctx.fail("zonal.mean", dict(data=vals[ti].tolist(), zones=zraster.tolist(), zone_dtype=zdt, zone_nodata=znd, nodata=nd, input_dtype=idt, dtype=odt, backend=backend, zone=kz, step=ti),
                                      got.tolist(), [None if v.size == 0 else float(v.astype(np.float64).mean()), int(v.size)],
-                                     note="pixels equal to the nodata value of the input are excluded whatever the output dtype")
+                                     note="pixels equal to the input's nodata are excluded whatever the output dtype; pixels whose zone equals the zone raster's nodata contribute nowhere")
                             break
     ctx.trusted += ["native model driver (Hdc/Model/Discrete.lean)", "harness/props/c16.py oracle (int64 NumPy sums)"]
 
